@@ -593,6 +593,100 @@ Proof.
     apply IH in H. lia.
 Qed.
 
+(* ------------------------------------------------------------------ the overlap of readUntil loses no delimiter *)
+Lemma cut_first_cons_none : forall c X, cut_first_nlnl (c :: X) = None ->
+  has_prefix NLNL (c :: X) = false /\ cut_first_nlnl X = None.
+Proof.
+  intros c X H. cbn [cut_first_nlnl] in H. destruct (has_prefix NLNL (c :: X)); [discriminate|].
+  split; [reflexivity|]. destruct (cut_first_nlnl X) as [[a b]|]; [discriminate|reflexivity].
+Qed.
+
+Lemma has_prefix_nlnl_firstn : forall c r k, has_prefix NLNL (c :: firstn (S k) r) = has_prefix NLNL (c :: r).
+Proof. intros c r k. destruct r as [|x r]; reflexivity. Qed.
+
+Lemma delim_end_cons : forall c r, has_prefix NLNL (c :: r) = false ->
+  delim_end (c :: r) = match delim_end r with Some e => Some (1 + e) | None => None end.
+Proof.
+  intros c r H. unfold delim_end. cbn [cut_first_nlnl]. rewrite H.
+  destruct (cut_first_nlnl r) as [[a b]|]; [|reflexivity]. unfold lenN. cbn [length]. f_equal. lia.
+Qed.
+
+Lemma overlap_nat : forall k s, cut_first_nlnl (firstn (S k) s) = None ->
+  delim_end s = match delim_end (skipn (Nat.min k (length s)) s) with
+                | Some e => Some (N.of_nat (Nat.min k (length s)) + e)
+                | None => None
+                end.
+Proof.
+  induction k as [|k IH]; intros s H.
+  - cbn. destruct (delim_end s); reflexivity.
+  - destruct s as [|c r]; [reflexivity|].
+    change (firstn (S (S k)) (c :: r)) with (c :: firstn (S k) r) in H.
+    apply cut_first_cons_none in H. destruct H as [Hp Hc]. rewrite has_prefix_nlnl_firstn in Hp.
+    rewrite (delim_end_cons c r Hp). rewrite (IH r Hc). cbn [length]. rewrite <- Nat.succ_min_distr. cbn [skipn].
+    destruct (delim_end (skipn (Nat.min k (length r)) r)); [f_equal; lia|reflexivity].
+Qed.
+
+Lemma delim_end_none : forall s, delim_end s = None <-> cut_first_nlnl s = None.
+Proof. intro s. unfold delim_end. destruct (cut_first_nlnl s) as [[a b]|]; split; intro H; congruence. Qed.
+
+Lemma firstn_min_length : forall (A : Type) n (s : list A), firstn (Nat.min n (length s)) s = firstn n s.
+Proof.
+  intros A n s. destruct (Nat.le_ge_cases n (length s)) as [L|L].
+  - rewrite Nat.min_l by exact L. reflexivity.
+  - rewrite Nat.min_r by exact L. rewrite firstn_all. symmetry. apply firstn_all2. exact L.
+Qed.
+
+Lemma takeN_firstn : forall n s, takeN n s = firstn (N.to_nat n) s.
+Proof.
+  intros n s. unfold takeN, lenN. rewrite <- (firstn_min_length _ (N.to_nat n) s). f_equal. lia.
+Qed.
+
+Lemma overlap_N : forall last s, delim_end (takeN (last + 1) s) = None -> delim_end_from last s = delim_end s.
+Proof.
+  intros last s H. apply delim_end_none in H. rewrite takeN_firstn in H.
+  replace (N.to_nat (last + 1)) with (S (N.to_nat last)) in H by lia.
+  rewrite (overlap_nat _ _ H). unfold delim_end_from, dropN, lenN.
+  replace (N.to_nat (N.min last (N.of_nat (length s)))) with (Nat.min (N.to_nat last) (length s)) by lia.
+  destruct (delim_end (skipn (Nat.min (N.to_nat last) (length s)) s)); [f_equal; lia|reflexivity].
+Qed.
+
+Lemma takeN_takeN : forall a b s, a <= b -> takeN a (takeN b s) = takeN a s.
+Proof.
+  intros a b s H. rewrite !takeN_firstn. rewrite firstn_firstn. f_equal. lia.
+Qed.
+
+Theorem read_until_overlap_gen : forall fuel last size maxSize d,
+  1 <= size -> last + 1 <= size -> delim_end (takeN (last + 1) (d_rem d)) = None ->
+  read_until_go fuel last size maxSize d = read_until fuel size maxSize d.
+Proof.
+  induction fuel as [|f IH]; intros last size maxSize d Hs Hl Hpre; [reflexivity|].
+  cbn [read_until_go read_until]. unfold peek. destruct (lenN (d_rem d) <? size) eqn:Eshort.
+  - rewrite (overlap_N last (d_rem d) Hpre). cbn [d_rem d_eof]. rewrite N.eqb_refl. cbn [andb].
+    destruct (delim_end (d_rem d)); reflexivity.
+  - assert (Hb : delim_end (takeN (last + 1) (takeN size (d_rem d))) = None)
+      by (rewrite takeN_takeN by exact Hl; exact Hpre).
+    rewrite (overlap_N last _ Hb).
+    destruct (delim_end (takeN size (d_rem d))) as [e|] eqn:Ed; [reflexivity|].
+    destruct (d_eof d && (lenN (takeN size (d_rem d)) =? lenN (d_rem d))); [reflexivity|].
+    destruct (maxSize <? size * 2); [reflexivity|].
+    apply IH; [lia|lia|]. replace (size - 1 + 1) with size by lia. exact Ed.
+Qed.
+
+Lemma delim_end_short : forall s, lenN s <= 1 -> delim_end s = None.
+Proof.
+  intros [|c [|c2 r]] H; try reflexivity.
+  - unfold delim_end. cbn [cut_first_nlnl has_prefix NLNL]. rewrite andb_false_r. reflexivity.
+  - unfold lenN in H. cbn [length] in H. lia.
+Qed.
+
+(* the Go loop (search restricted to the new part plus the overlap) finds exactly what a search of the whole buffer finds *)
+Theorem read_until_overlap : forall fuel size maxSize d,
+  1 <= size -> read_until_go fuel 0 size maxSize d = read_until fuel size maxSize d.
+Proof.
+  intros fuel size maxSize d Hs. apply read_until_overlap_gen; [exact Hs|lia|].
+  apply delim_end_short. pose proof (takeN_len (0 + 1) (d_rem d)). lia.
+Qed.
+
 (* every assertion handed on by one Decode call respects the body and signature limits *)
 Opaque ru_fuel read_until read_exact parse_headers body_length.
 
